@@ -32,12 +32,16 @@ import gen_lib as GL
 
 NS = "EngineModel.Properties.C15Faults."
 NST = "EngineModel.Properties.C15FaultsTracks."
-LEAN_MODULES = ["Properties.C15Faults", "Properties.C15FaultsTracks"]
+NST1 = "EngineModel.Properties.C15FaultsTracksV1."
+LEAN_MODULES = ["Properties.C15Faults", "Properties.C15FaultsTracks", "Properties.C15FaultsTracksV1"]
 THEOREMS_TRACKS = [NST + t for t in [
     "v2t_C15_failed_call_restores", "v2t_C15_fault_inside_throws", "v2t_C15_call_under_faults",
     "v2t_C14_failed_call_unchanged", "v2t_C15_bridge", "v2t_C15_after_faults_inv", "v2t_C15_after_faults_reachable",
     "v2t_C15_after_faults_no_ub", "v2t_C15_after_faults_no_ub_from", "v2t_C15_after_faults_stale_handle",
-    "v2t_C15_without_scope_counterexample"]]
+    "v2t_C15_without_scope_counterexample"]] + [NST1 + t for t in [
+    "v1t_C15_failed_call_restores", "v1t_C15_fault_inside_throws", "v1t_C15_call_under_faults",
+    "v1t_C14_failed_call_unchanged", "v1t_C15_after_faults_inv", "v1t_C15_after_faults_reachable",
+    "v1t_C15_after_faults_no_ub"]]
 THEOREMS = [NS + t for t in [
     "v2c_C15_failed_call_restores", "v2c_C15_fault_inside_throws", "v2c_C15_call_under_faults",
     "v2c_C15_after_faults_inv", "v2c_C15_after_faults_no_ub", "v2c_C15_after_faults_prefix_queries_no_ub",
@@ -57,7 +61,10 @@ ASSUMPTIONS = [
     "scoped setters and remove_track at UPDATE / DELETE granularity, the other calls one write); the bridge to the C15 "
     "track model (v2t_C15_bridge: TDb.step = C15TracksV2.step on the row store the getters read) is a theorem; the "
     "memberships of a removed track are outside the Track-table model (remove_track = the scope of its DELETE); 1.x "
-    "tracks: fault stream on the harness only",
+    "tracks: the programs are TracksV1/Stmts.topStmts at CALL granularity (one write = the joint effect of the call inside "
+    "the scope engine_track_impl.cpp gives it: the model has no statement level, so a fault between two statements of a "
+    "scoped call is not a position of the 1.x theorem — C14's scope table + the harness fault stream cover it); the model "
+    "side of the fault stream exists for 2.x tracks only (mode c15ftv2)",
 ]
 MANIFEST_TEXT = ("Failed calls: for ALL histories of crate / membership calls x ALL fault plans (a statement failing at any "
                  "position of any call, BEGIN / COMMIT included, or refused by a constraint) x ALL arguments the state "
@@ -75,7 +82,10 @@ MANIFEST_TEXT = ("Failed calls: for ALL histories of crate / membership calls x 
                  "(v2t_C15_after_faults_no_ub, v2t_C15_after_faults_stale_handle); without the scope set_relative_path "
                  "leaves a half-written row (v2t_C15_without_scope_counterexample).  Tracks of both generations are tied "
                  "by the fault stream on the harness (create / update / setters / remove, duplicate path: a fault at every "
-                 "statement position, then snapshot() and getters of every track); 1.x tracks: no theorem over failures.")
+                 "statement position, then snapshot() and getters of every track; 2.x also on the model, line by line).  1.x "
+                 "TRACKS: the same composition at call granularity over the tables of the C15 1.x track model itself "
+                 "(v1t_C15_after_faults_no_ub, v1t_C14_failed_call_unchanged, v1t_C15_after_faults_reachable; fault "
+                 "positions BEGIN / the call's joint write / COMMIT).")
 TRUSTED_EXTRA = []
 
 FAMILIES = {
